@@ -2079,12 +2079,7 @@ impl fmt::Display for Group<'_> {
           }
 
           #[cfg(not(feature = "ast-comments"))]
-          if self.group_choices.len() > 2 {
-            gc_str = gc_str.replace('\n', "\n\t\t");
-            group_str.push_str(gc_str.trim());
-          } else {
-            group_str.push_str(gc_str.trim_start());
-          }
+          group_str.push_str(gc_str.trim_start());
         } else {
           // gc_str is still the unmodified rendering here; rendering the
           // choice a second time doubles the work at every nesting level
@@ -2102,11 +2097,6 @@ impl fmt::Display for Group<'_> {
 
       #[cfg(feature = "ast-comments")]
       if self.group_choices.len() > 2 && gc.has_entries_with_comments_before_comma() {
-        gc_str = gc_str.replace('\n', "\n\t\t");
-      }
-
-      #[cfg(not(feature = "ast-comments"))]
-      if self.group_choices.len() > 2 {
         gc_str = gc_str.replace('\n', "\n\t\t");
       }
 
